@@ -62,6 +62,7 @@ type rewriter struct {
 	skipComm map[ast.Node]bool          // comm statements/expressions of select clauses
 	mode     map[ast.Expr]accessMode    // marks for candidate access expressions
 	wrap     map[ast.Expr]bool          // expressions decided (in pre) to be wrapped
+	wrapID   map[*ast.Ident]bool        // uses of package-level variables decided to be wrapped
 	siteOf   map[ast.Node]*ast.BasicLit // sites computed on the original tree
 	isClose  map[*ast.CallExpr]bool
 	makeElem map[*ast.CallExpr]ast.Expr
@@ -303,11 +304,24 @@ func (r *rewriter) pre(c *astutil.Cursor) bool {
 				}
 			}
 		}
+	case *ast.Ident:
+		// a use of a package-level variable of the package under rewrite: a shared location like a field
+		// (a counter, a cache, a lazily built table, a scratch slice header hoisted to package scope)
+		if r.race && r.mode[n] != modeSkip {
+			if v, ok := r.info.Uses[n].(*types.Var); ok && !v.IsField() && v.Pkg() == r.pkg && v.Parent() == r.pkg.Scope() {
+				if tv, ok := r.info.Types[n]; ok && tv.Addressable() {
+					r.wrapID[n] = true
+				}
+			}
+		}
 	case *ast.SelectorExpr:
 		s := r.info.Selections[n]
 		if s != nil && s.Kind() == types.FieldVal {
 			// a.b.c with b a struct value: one location, wrap only the outermost
 			if !isPointer(r.info.TypeOf(n.X)) {
+				if _, inner := unparen(n.X).(*ast.Ident); inner && r.ownField(n) {
+					r.mark(n.X, modeSkip) // g.f with g a package-level struct value: the field is the location
+				}
 				if _, inner := unparen(n.X).(*ast.SelectorExpr); inner {
 					r.mark(n.X, modeSkip)
 				}
@@ -356,6 +370,13 @@ func (r *rewriter) wrapAccess(e ast.Expr, write bool) ast.Expr {
 // post runs after the children of a node were rewritten.
 func (r *rewriter) post(c *astutil.Cursor) bool {
 	switch n := c.Node().(type) {
+	case *ast.Ident:
+		if r.wrapID[n] {
+			if _, isSel := c.Parent().(*ast.SelectorExpr); isSel && c.Name() == "Sel" {
+				return true
+			}
+			c.Replace(r.wrapAccess(n, r.mode[n] == modeWrite))
+		}
 	case *ast.SelectorExpr:
 		if r.wrap[n] {
 			c.Replace(r.wrapAccess(n, r.mode[n] == modeWrite))
@@ -694,7 +715,7 @@ func main() {
 			r := &rewriter{fset: pkg.Fset, info: pkg.TypesInfo, pkg: pkg.Types, file: name, race: *race, sharedLoopVars: shared,
 				skipComm: map[ast.Node]bool{}, mode: map[ast.Expr]accessMode{}, wrap: map[ast.Expr]bool{}, siteOf: map[ast.Node]*ast.BasicLit{},
 				isClose: map[*ast.CallExpr]bool{}, makeElem: map[*ast.CallExpr]ast.Expr{}, delMap: map[*ast.CallExpr]bool{},
-				lenMap: map[*ast.CallExpr]bool{}, lenChan: map[*ast.CallExpr]bool{}, makeConv: map[*ast.CallExpr]ast.Expr{}, selBlock: map[*ast.BlockStmt]bool{}, rangeK: map[*ast.RangeStmt]string{}, mapIdx: map[*ast.IndexExpr]bool{}}
+				lenMap: map[*ast.CallExpr]bool{}, lenChan: map[*ast.CallExpr]bool{}, makeConv: map[*ast.CallExpr]ast.Expr{}, selBlock: map[*ast.BlockStmt]bool{}, wrapID: map[*ast.Ident]bool{}, rangeK: map[*ast.RangeStmt]string{}, mapIdx: map[*ast.IndexExpr]bool{}}
 			res := astutil.Apply(f, r.pre, r.post).(*ast.File)
 			if len(r.errs) > 0 {
 				for _, e := range r.errs {
